@@ -65,17 +65,26 @@ def collect(host, workrel):
     return out
 
 
-def exec_task(host, task, workrel, bases, faults=(), variant=None):
+def exec_task(host, task, workrel, bases, faults=(), variant=None, cwdtrack=None):
     wdir = materialise(host, task, workrel, bases)
     kind = task["kind"]
     prev_cwd = None
     if task.get("cwd_in"):
         # the description names its files relatively: the operation runs from the directory that holds them
+        target = os.path.join(wdir, "in")
+        if cwdtrack is not None:
+            # inside a history the working directory is *sticky*, as in a shell session: the harness changes it only
+            # when, by its own book-keeping, it is somewhere else - so an operation of the tool that moved the process
+            # (and did not move it back) is met by the next relative path
+            if cwdtrack.get("set") != target:
+                os.chdir(target)
+                cwdtrack["set"] = target
+            return _exec_task(host, task, workrel, wdir, kind, faults, variant)
         try:
             prev_cwd = os.getcwd()
         except OSError:
             prev_cwd = host.home_cwd
-        os.chdir(os.path.join(wdir, "in"))
+        os.chdir(target)
     try:
         return _exec_task(host, task, workrel, wdir, kind, faults, variant)
     finally:
@@ -511,10 +520,13 @@ class History(Machine):
         ex["perturbations"][w] = ex["perturbations"].get(w, 0) + 1
         if w == "chdir_root":
             os.chdir(host.root)
+            model.setdefault("cwdtrack", {})["set"] = host.root
         elif w == "chdir_sub":
             os.chdir(host.mkdir("elsewhere/deeper"))
+            model.setdefault("cwdtrack", {})["set"] = host.path("elsewhere/deeper")
         elif w == "chdir_home":
             os.chdir(host.home_cwd)
+            model.setdefault("cwdtrack", {})["set"] = host.home_cwd
         elif w == "env":
             os.environ["ZEPHYR_BASE"] = "/nonexistent/zephyr"
             os.environ["NCS_SUIT_SIGN_SCRIPT"] = "/nonexistent/sign.py"
@@ -585,7 +597,8 @@ class History(Machine):
         shared = bool(host.swarm.get("shared_workdir")) and not t.get("wd") and not t.get("cwd_in")
         workrel = "pshared" if shared else f"p{t.get('wd', j)}"
         before = collect(host, workrel) if shared else {}
-        o, outputs, stdout = exec_task(host, t, workrel, model["bases"], faults=faults, variant=op.get("variant"))
+        o, outputs, stdout = exec_task(host, t, workrel, model["bases"], faults=faults, variant=op.get("variant"),
+                                       cwdtrack=model.setdefault("cwdtrack", {}))
         if shared:
             # left-overs of other commands that this one neither wrote nor should have written do not count
             outputs = {k: v for k, v in outputs.items() if k in ref["outputs"] or before.get(k) != v}
